@@ -3,9 +3,11 @@ package main
 import (
 	"fmt"
 	"io"
+	"math"
 	"reflect"
 	"runtime"
 	"sort"
+	"strings"
 	"sync"
 	"sync/atomic"
 	"time"
@@ -441,6 +443,14 @@ func c05Identity(c *mon.Ctx, r *mon.Rand) {
 			n.sc.Counter("m").Inc(uniq)
 			expected[mk] += uniq
 			uniq <<= 1
+			// one histogram sample per distinct scope object: it arrives under that
+			// identity's full name and tags as well
+			n.sc.Histogram("mh", tally.ValueBuckets{1}).RecordValue(0.5)
+			hkey := mon.BucketKeyV(rc.metricName(n.id, "mh"), n.id.Tags, -math.MaxFloat64, 1)
+			expected[hkey]++
+			if inCollision(n) {
+				collided[hkey] = true
+			}
 			// metric identity on this scope
 			if n.sc.Counter("m") != n.sc.Counter("m") || n.sc.Gauge("m") != n.sc.Gauge("m") || n.sc.Timer("m") != n.sc.Timer("m") || n.sc.Histogram("m", nil) != n.sc.Histogram("m", nil) {
 				c.Violation("metric-split/"+kind, map[string]interface{}{"why": "asking twice for the same kind and name returned different metrics", "scope": n.where, "case": desc})
@@ -592,6 +602,23 @@ func c05SnapshotVandal(c *mon.Ctx, r *mon.Rand) {
 		a.Counter("m").Inc(1)
 		b.Counter("m").Inc(2)
 		a.Gauge("g").Update(1)
+		// the same metric name on the test scope itself and on a subscope: two
+		// entries, each under its own full name
+		ts.Gauge("sg").Update(8)
+		ts.SubScope("sa").Gauge("sg").Update(7)
+		gotG := map[string]float64{}
+		for _, gs := range ts.Snapshot().Gauges() {
+			gotG[gs.Name()] = gs.Value()
+		}
+		pfx := ""
+		for name := range gotG {
+			if strings.HasSuffix(name, "sa.sg") {
+				pfx = strings.TrimSuffix(name, "sa.sg")
+			}
+		}
+		if gotG[pfx+"sg"] != 8 || gotG[pfx+"sa.sg"] != 7 {
+			c.Violation("wrong-snapshot-name", map[string]interface{}{"why": fmt.Sprintf("gauge sg was updated to 8 on the test scope and to 7 on its subscope sa; the snapshot's gauges are %v", gotG), "case": desc})
+		}
 		snap := ts.Snapshot()
 		for _, cs := range snap.Counters() {
 			for k := range cs.Tags() {
